@@ -30,7 +30,11 @@ FLOORS = {}
 
 
 def tasks(tier):
-    return [("evaluate", "run_evaluate", {}), ("extract", "run_extract", {}), ("mass", "run_mass", {})]
+    return [("evaluate", "run_evaluate", {}), ("extract", "run_extract", {}), ("mass", "run_mass", {}),
+            # the free unknowns of the eigenproblem come from dof.partition (incl. the rule that unknowns of points without cells are prescribed,
+            # also for an empty boundary dictionary: free-free analysis)
+            ("free unknowns (dof.partition)", "run_included", dict(modname="c08", fname="run_partition", kwargs=dict(dim=2), oid="C18.O4",
+                                                                 why="K and M are sliced with the free unknowns dof.partition returns; a cell-less point left free makes the pencil singular"))]
 
 
 class VibItem:
@@ -142,3 +146,9 @@ def run_mass(col):
             sym_ok = all(is_zero(P(Mm[i, j]) - P(Mm[j, i])) for i in range(Mm.shape[0]) for j in range(i))
             col.add("C18.O3", "%s[%s]._mass" % (cname, kind), "mass matrix == sum rho N_a N_b delta_ik dV on the first field only (a Gram matrix: symmetric positive semi-definite)", not bad and sym_ok, "; ".join(bad))
     finish_info(col, it)
+
+
+def run_included(col, modname, fname, kwargs, oid, why):
+    from ..common import include
+
+    include(col, modname, fname, kwargs, oid, why)
